@@ -281,7 +281,49 @@ func errorsIs(in *Interp, fn *ssa.Function, a []Value) Value {
 	return tFalse
 }
 
+// lexCmp: -1/0/1 comparison term of two byte sequences (concrete lengths)
+func lexCmp(x, y []*Term) *Term {
+	n := len(x)
+	if len(y) < n {
+		n = len(y)
+	}
+	r := BVConstI(64, 0)
+	if len(x) < len(y) {
+		r = BVConstI(64, -1)
+	} else if len(x) > len(y) {
+		r = BVConstI(64, 1)
+	}
+	if n >= 16 && len(x) == len(y) {
+		// whole-value comparison for hash-like strings
+		if a := wholeOf(x); a != nil {
+			if b := wholeOf(y); b != nil {
+				return Ite(BVCmp("bvult", a, b), BVConstI(64, -1), Ite(BVCmp("bvugt", a, b), BVConstI(64, 1), BVConstI(64, 0)))
+			}
+		}
+	}
+	for i := n - 1; i >= 0; i-- {
+		r = Ite(BVCmp("bvult", x[i], y[i]), BVConstI(64, -1), Ite(BVCmp("bvugt", x[i], y[i]), BVConstI(64, 1), r))
+	}
+	return r
+}
+
+func sortStringsIntrinsic(in *Interp, fn *ssa.Function, a []Value) Value {
+	sl := a[0].(Slice)
+	n := len(sl.A)
+	for i := 1; i < n; i++ {
+		for j := i; j > 0; j-- {
+			c := BVCmp("bvslt", lexCmp(sl.A[j].(Str).B, sl.A[j-1].(Str).B), BVConstI(64, 0))
+			if !in.ctx.Branch(c) {
+				break
+			}
+			sl.A[j], sl.A[j-1] = sl.A[j-1], sl.A[j]
+		}
+	}
+	return nil
+}
+
 func init() {
+	intrinsics["sort.Strings"] = sortStringsIntrinsic
 	intrinsics["errors.Is"] = errorsIs
 	intrinsics["sort.Slice"] = sortSliceIntrinsic
 	intrinsics["sort.SliceStable"] = sortSliceIntrinsic
